@@ -138,8 +138,8 @@ func composedPaths(sv types.ServiceConfig) map[string]string {
 
 // runNonPaths: sources that are not paths - mounts of the types npipe, cluster and image, named
 // volumes, service / container references - stay as written, in the main file and in an included one.
-func runNonPaths(s *core.Shard, offset int) {
-	if !s.Mine(offset) || !s.Begin("non-paths") {
+func runNonPaths(s *core.Shard, offset int, force bool) {
+	if !force && (!s.Mine(offset) || !s.Begin("non-paths")) {
 		return
 	}
 	svc := "    image: img\n    volumes:\n      - {type: npipe, source: '\\\\.\\pipe\\docker_engine', target: '\\\\.\\pipe\\docker_engine'}\n      - {type: cluster, source: 'group:mygroup', target: /c}\n      - {type: image, source: 'alpine:3.19', target: /i}\n      - {type: volume, source: data, target: /d}\n      - {type: tmpfs, target: /t}\n"
